@@ -139,6 +139,10 @@ def fam_c02(tier, seed):
 
 def fam_c05(tier, seed):
     items = matching_family(tier, seed, events=("X", "U"))
+    # ratios whose reciprocal does not terminate (decimal residue on the real build; see boundary witnesses)
+    b3 = list(sk.bs_family(2, 3, SHORT, need_sell=True))
+    for l in sk.with_events(b3, ("X", "U"), [0, 1, 30], ratios=("3",), max_events=1):
+        items.append((l, BASES[0]))
     sks = _number("m", items)
     sks += _number("i", interleaved_family(tier))
     rep = report_level([it for it in items if it[1] == BASES[0]], 3 if tier == "quick" else 4, quick=False)
@@ -175,7 +179,7 @@ SPECS = {
         "a CAPRETURN/ACCUMULATION takes effect iff shares of the security are held at the start of its day (conservation law over the same inputs)"], outside=OUTSIDE),
     "C05": dict(id="C05", families=fam_c05, entry_points=REPORT_ENTRY, bounds=bounds_matching, assumptions=COMMON_ASSUME + [
         "coverage predicate: running holding (acquisitions - disposals, rescaled by splits at day end) >= 0 after every day with a SELL"],
-        outside=OUTSIDE + ["CLI/MCP 'no partial output' (process and I/O behaviour)"]),
+        outside=["ledgers longer than the bound", "dates off the palette", "decimal residue away from the 'entire holding sold' boundary (boundary witnesses replay that boundary on the real build for split/unsplit ratios 2 and 3)", "CLI/MCP 'no partial output' (process and I/O behaviour)"]),
 }
 
 
